@@ -117,7 +117,7 @@ def seeded():
 
 def benign():
     before = {}
-    for fn in ("BENIGN_eval_before_repair.txt", "BENIGN2_eval_before_repair.txt", "BENIGN3_eval_before_repair.txt", "BENIGN4_eval_before_repair.txt", "BENIGN5_eval_before_repair.txt"):
+    for fn in ("BENIGN_eval_before_repair.txt", "BENIGN2_eval_before_repair.txt", "BENIGN3_eval_before_repair.txt", "BENIGN4_eval_before_repair.txt", "BENIGN5_eval_before_repair.txt", "BENIGN6_eval_before_repair.txt"):
         pth = f"{V}/benign/{fn}"
         if os.path.exists(pth):
             for line in open(pth):
